@@ -254,8 +254,11 @@ def run(ctx):
                 lo, hi = float(cat.min()), float(cat.max())
                 if hi > lo:
                     bins = r.choice([2, 3, 5])
+                    try:
+                        eh, ee = np.histogram(cat, bins=bins, range=(lo, hi))
+                    except ValueError:
+                        continue        # NumPy itself refuses this range on the dense array (range too narrow for the bins)
                     h, edges = np.histogram(res, bins=bins, range=(lo, hi))
-                    eh, ee = np.histogram(cat, bins=bins, range=(lo, hi))
                     ctx.check("histogram", bool(np.array_equal(np.asarray(h), eh) and np.allclose(edges, ee)), "np.histogram", "np.histogram(%s, bins=%d, range=(%r,%r)) = %r, dense %r" % (txt, bins, lo, hi, np.asarray(h).tolist(), eh.tolist()),
                               dict(wit, expr=txt, got=np.asarray(h).tolist(), expected=eh.tolist()), (key, txt, "hist"))
             # back-conversion
